@@ -121,6 +121,11 @@ def ipow (a : Int) : Nat → Int
   | 0 => 1
   | n + 1 => a * ipow a n
 
+/-- `round(x ** y)` for integers x ≠ 0, y < 0 (round half to even): 1/x^|y| is at most 1/2 in
+    magnitude unless |x| = 1 -/
+def negPowRound (x y : Int) : Int :=
+  if x = 1 then 1 else if x = -1 then (if y % 2 = 0 then 1 else -1) else 0
+
 /-! ### the instructions -/
 
 inductive BinOp where
@@ -131,8 +136,8 @@ inductive UnOp where
   | neg | not | eq | ne | lt | gt | le | ge | abs | sign | cint | clng | int
   deriving Repr, DecidableEq
 
-def isIntTy (t : Ty) : Bool := t == .i || t == .l
-def isNumTy (t : Ty) : Bool := t != .str
+def isIntTy (t : Ty) : Bool := decide (t = .i) || decide (t = .l)
+def isNumTy (t : Ty) : Bool := decide (t ≠ .str)
 
 /-- lexicographic comparison of strings by code point: -1, 0, 1 -/
 def strCmp : Str → Str → Int
@@ -147,27 +152,27 @@ def binop {F} (ops : FOps F) (op : BinOp) (a b : Cell F) : Res (Cell F) :=
   match op with
   | .cmp =>
     -- `self.trap(TrapCode.TYPE_MISMATCH, a.type, got=b.type)` has one positional argument too many
-    if a.ty != b.ty then .host "TypeError" else
+    if decide (a.ty ≠ b.ty) then .host "TypeError" else
     match a, b with
     | .int _ x, .int _ y => .ok (.int .i (if x = y then 0 else if x < y then -1 else 1))
     | .flt _ x, .flt _ y => .ok (.int .i (if ops.eq x y then 0 else if ops.lt x y then -1 else 1))
     | .str x, .str y => .ok (.int .i (strCmp x y))
     | _, _ => .trap "TYPE_MISMATCH"
   | .add =>
-    if a.ty != b.ty then .trap "TYPE_MISMATCH" else
+    if decide (a.ty ≠ b.ty) then .trap "TYPE_MISMATCH" else
     match a, b with
     | .int t x, .int _ y => mk ops t (.int (x + y))
     | .flt t x, .flt _ y => mk ops t (.flt (ops.add x y))
     | .str x, .str y => .ok (.str (x ++ y))
     | _, _ => .trap "TYPE_MISMATCH"
   | .sub | .mul =>
-    if !isNumTy a.ty || !isNumTy b.ty || a.ty != b.ty then .trap "TYPE_MISMATCH" else
+    if !isNumTy a.ty || !isNumTy b.ty || decide (a.ty ≠ b.ty) then .trap "TYPE_MISMATCH" else
     match a, b with
     | .int t x, .int _ y => mk ops t (.int (if op = .sub then x - y else x * y))
     | .flt t x, .flt _ y => mk ops t (.flt (if op = .sub then ops.sub x y else ops.mul x y))
     | _, _ => .trap "TYPE_MISMATCH"
   | .div =>
-    if !isNumTy a.ty || !isNumTy b.ty || a.ty != b.ty then .trap "TYPE_MISMATCH" else
+    if !isNumTy a.ty || !isNumTy b.ty || decide (a.ty ≠ b.ty) then .trap "TYPE_MISMATCH" else
     match a, b with
     | .int _ x, .int _ y =>
       if y = 0 then .trap "DIVISION_BY_ZERO" else mk ops .s (.flt (ops.div (ops.ofInt x) (ops.ofInt y)))
@@ -175,14 +180,14 @@ def binop {F} (ops : FOps F) (op : BinOp) (a b : Cell F) : Res (Cell F) :=
       if ops.isZero y then .trap "DIVISION_BY_ZERO" else mk ops t (.flt (ops.div x y))
     | _, _ => .trap "TYPE_MISMATCH"
   | .idiv | .mod =>
-    if !isIntTy a.ty || (op = .idiv && !isIntTy b.ty) || a.ty != b.ty then .trap "TYPE_MISMATCH" else
+    if !isIntTy a.ty || (op = .idiv && !isIntTy b.ty) || decide (a.ty ≠ b.ty) then .trap "TYPE_MISMATCH" else
     match a, b with
     | .int t x, .int _ y =>
       if y = 0 then .trap "DIVISION_BY_ZERO"
       else mk ops t (.int (if op = .idiv then pyFloorDiv x y else pyMod x y))
     | _, _ => .trap "TYPE_MISMATCH"
   | .and | .or | .xor | .eqv | .imp =>
-    if !isIntTy a.ty || !isIntTy b.ty || a.ty != b.ty then .trap "TYPE_MISMATCH" else
+    if !isIntTy a.ty || !isIntTy b.ty || decide (a.ty ≠ b.ty) then .trap "TYPE_MISMATCH" else
     match a, b with
     | .int t x, .int _ y =>
       mk ops t (.int (match op with
@@ -190,12 +195,12 @@ def binop {F} (ops : FOps F) (op : BinOp) (a b : Cell F) : Res (Cell F) :=
         | .eqv => inot (ixor x y) | _ => ior (inot x) y))
     | _, _ => .trap "TYPE_MISMATCH"
   | .exp =>
-    if !isNumTy a.ty || !isNumTy b.ty || a.ty != b.ty then .trap "TYPE_MISMATCH" else
+    if !isNumTy a.ty || !isNumTy b.ty || decide (a.ty ≠ b.ty) then .trap "TYPE_MISMATCH" else
     match a, b with
     | .int t x, .int _ y =>
       if 0 ≤ y then mk ops t (.int (ipow x y.toNat))
       else if x = 0 then .trap "DIVISION_BY_ZERO"
-      else .host "external-pow"        -- negative exponent: Python float power (not modelled)
+      else mk ops t (.int (negPowRound x y))   -- Python float power, rounded when stored in the integral cell
     | _, _ => .host "external-pow"      -- float ** float: C pow, OverflowError, complex results (not modelled)
 
 def unop {F} (ops : FOps F) (op : UnOp) (a : Cell F) : Res (Cell F) :=
@@ -237,7 +242,7 @@ def unop {F} (ops : FOps F) (op : UnOp) (a : Cell F) : Res (Cell F) :=
 
 /-- conv<src><dst>: pops a cell of type src (TYPE_MISMATCH otherwise), pushes dst -/
 def conv {F} (ops : FOps F) (src dst : Ty) (a : Cell F) : Res (Cell F) :=
-  if a.ty != src then .trap "TYPE_MISMATCH" else
+  if decide (a.ty ≠ src) then .trap "TYPE_MISMATCH" else
   match a with
   | .int _ x => if isIntTy dst then mk ops dst (.int x) else mk ops dst (.flt (ops.ofInt x))
   | .flt _ x =>
